@@ -155,3 +155,54 @@ pub fn tick(site: u32) {
         std::panic::panic_any(BudgetExhausted { site, ticks: n });
     }
 }
+
+// ---------------------------------------------------------------------------------------------------
+// Opaque handles, so that a harness can drive the runner's components one at a time (parse a word, apply one
+// rule group, render) on the real `Word`, including its private `americanist` flag.
+
+/// A parsed word (the crate-private `Word`, unchanged).
+#[derive(Clone)]
+pub struct WordH(Word);
+
+impl WordH {
+    /// `Word::new(normalise(text), deromanisers)`
+    pub fn parse(text: &str, alias_into: &[String]) -> Result<WordH, Error> {
+        let (into, _) = parse_aliases(alias_into, &[])?;
+        Ok(WordH(Word::new(normalise(text), &into)?))
+    }
+    pub fn from_s(w: &WordS) -> WordH { WordH(word_from_s(w)) }
+    pub fn render(&self, alias_from: &[String]) -> Result<String, Error> {
+        let (_, from) = parse_aliases(&[], alias_from)?;
+        Ok(self.0.render(&from))
+    }
+    pub fn structure(&self) -> WordS { word_to_s(&self.0) }
+    /// `Word`'s own `PartialEq`
+    pub fn same(&self, other: &WordH) -> bool { self.0 == other.0 }
+}
+
+/// Parsed rule groups.
+pub struct RulesH(Vec<Vec<crate::rule::Rule>>);
+
+impl RulesH {
+    pub fn parse(groups: &[RuleGroup]) -> Result<RulesH, Error> { Ok(RulesH(parse_rule_groups(groups)?)) }
+    pub fn len(&self) -> usize { self.0.len() }
+    pub fn is_empty(&self) -> bool { self.0.is_empty() }
+    /// number of rules (non-blank, non-comment lines) in group `gi`
+    pub fn group_len(&self, gi: usize) -> usize { self.0[gi].len() }
+    /// apply every rule of group `gi`, in order, to `w`
+    pub fn apply_group(&self, gi: usize, w: &WordH) -> Result<WordH, Error> {
+        let mut cur = w.0.clone();
+        for rule in &self.0[gi] { cur = rule.apply(cur)?; }
+        Ok(WordH(cur))
+    }
+}
+
+/// Aliases parse (both lists), as `run` does first.
+pub fn check_aliases(alias_into: &[String], alias_from: &[String]) -> Result<(), Error> {
+    parse_aliases(alias_into, alias_from).map(|_| ())
+}
+
+/// A trace entry as plain data: `(rule_index, words of the phrase after that group)`.
+pub fn change_to_s(c: &crate::Change) -> (usize, Vec<WordS>) {
+    (c.rule_index, c.after.iter().map(word_to_s).collect())
+}
